@@ -31,11 +31,16 @@ MANIFEST = {
                   "from the clang AST of Node / SessionManager / KeyManager / ReputationManager / ChunkStore / KademliaTable / "
                   "SwarmCoordinator / NatTraversal / RelayClient / ControlServer / main.cpp (fields read/written per method, lexical "
                   "lock scopes, call graph, thread roles control / main / accept / reader xN / relay) and the checker is evaluated on "
-                  "it by the Lean kernel (table_violations, C36_partial, C36_counterexamples, C36_full_iff). On the current tree the "
-                  "premise is false: the listed (location, role pair) triples (KeyManager::contexts_, Node::handshake_state_, "
-                  "Session::key/socket, Config advertise fields, Node::nat_status_, ...) are known findings; any other lock-less "
-                  "conflicting pair is a violation. A ThreadSanitizer run of a daemon-shaped harness (real Node + ControlServer + "
-                  "loopback sessions + peers + ticks) validates the table: every TSan report must be a predicted pair.",
+                  "it by the Lean kernel (table_violations, C36_partial, C36_counterexamples, C36_full_iff). A second kernel-evaluated check, "
+                  "lockOrderAcyclic over the extracted graph 'l2 acquired while l1 held', with the theorem lock_order_no_deadlock / "
+                  "no_deadlock_of_edges / C36_no_deadlock: threads that nest acquisitions as the sources do can always make progress. "
+                  "On the tree the design was written for the premise was false on 41 (location, role pair) triples over 10 locations "
+                  "(KeyManager::contexts_, Node::handshake_state_, Session::key/socket, Config advertise fields, Node::nat_status_, "
+                  "listen socket/port); six small fixes (fixes/C36-*.patch: leaf mutexes, reads under the existing lock, atomics, "
+                  "descriptor owned by the Session) remove all of them without adding a lock-order cycle, so with them the checker "
+                  "returns the empty list and lockset_sound applies; any lock-less conflicting pair or lock-order cycle is a violation. "
+                  "A ThreadSanitizer run of a daemon-shaped harness (real Node + ControlServer + loopback sessions + peers + ticks) "
+                  "validates the table: every TSan report must be a predicted pair.",
     "level_note": "Not proved: that the running C++ process is race free or racy - a data race is a runtime event; what is proved is the "
                   "lock discipline that excludes it, over an extracted table. Trusted: the extractor (props/C36_extract.py: clang-14 AST "
                   "-> accesses/locks/calls; local alias analysis only; functions outside the analysed files assumed to touch shared "
@@ -139,13 +144,16 @@ def topo_ranks(n: int, edges: list) -> tuple[list, list]:
                 todo.append(j)
     if seen < n:
         # recover one cycle among the remaining nodes
+        # recover one cycle: every remaining node has a remaining predecessor, so walking predecessors repeats
         rem = {i for i in range(n) if indeg[i] > 0}
-        cur = next(iter(rem))
+        pred = {j: [i for i, b in edges if b == j and i in rem] for j in rem}
+        cur = min(rem)
         path = []
         while cur not in path:
             path.append(cur)
-            cur = next(j for j in succ[cur] if j in rem)
-        return [0] * n, path[path.index(cur):] + [cur]
+            cur = pred[cur][0]
+        cyc = path[path.index(cur):] + [cur]
+        return [0] * n, cyc[::-1]
     return rank, []
 
 
